@@ -118,6 +118,40 @@ fn gen_set(dir: &str, shape: &Value, rng: &mut Rng) -> (Vec<String>, Vec<GenMsg>
             };
             per_file[f].push((m, g));
         }
+        // tied first reception times: the tied files get one extra first message each, all with the identical storage time
+        let tie = shape["tie"].as_str().unwrap_or("none");
+        if tie != "none" {
+            let t0 = BASE_US - 500_000;
+            for f in 0..nf {
+                let tied = tie == "all" || pats.iter().filter(|p| **p == pats[f]).count() >= 2;
+                if !tied {
+                    continue;
+                }
+                let e = pats[f].as_bytes()[0];
+                let ecu = format!("ECU{}", e as char);
+                let ts = 6900 + f as u32; // unique key: low digits 900.. are not used by the slots
+                let text = format!("tied first msg of file {}", f);
+                let mut pl = Vec::new();
+                pl.extend_from_slice(&0x0000_0200u32.to_le_bytes());
+                pl.extend_from_slice(&((text.len() + 1) as u16).to_le_bytes());
+                pl.extend_from_slice(text.as_bytes());
+                pl.push(0);
+                let mut m = mk_msg(0, &ecu, t0, ts, pl);
+                let apid = APIDS[f % APIDS.len()];
+                let ctid = CTIDS[f % CTIDS.len()];
+                m.extended_header = Some(DltExtendedHeader { verb_mstp_mtin: 0x41, noar: 1, apid: char4(apid), ctid: char4(ctid) });
+                m.standard_header.mcnt = 200 + f as u8;
+                let g = GenMsg {
+                    key: ts,
+                    ecu,
+                    apid: apid.to_string(),
+                    ctid: ctid.to_string(),
+                    ext: true,
+                    hash: hash31(&msg_bytes(&m)),
+                };
+                per_file[f].insert(0, (m, g));
+            }
+        }
         // every file non-empty, every "AB" file really contains both ECUs (else its stream would be grouped differently)
         let ok = (0..nf).all(|f| {
             !per_file[f].is_empty()
@@ -427,12 +461,14 @@ fn main() {
         // ---------------- selection runs
         let n = ref_lines.len() as u64;
         let perms = permutations(files.len());
+        let tied_set = entry["shape"]["tie"].as_str().unwrap_or("none") != "none";
+        let dup_arg = entry["shape"]["dup"].as_bool().unwrap_or(false);
         let opts = entry["opts"].as_array().unwrap();
         let mut jobs: Vec<Job> = Vec::new();
         for (j, o) in opts.iter().enumerate() {
             let case = base_case + 1 + j as u64;
             let (b, e, lcs) = concretise(o, n, &ids, &mut rng);
-            let perm = &perms[j % perms.len()];
+            let perm = if tied_set { &perms[0] } else { &perms[j % perms.len()] };
             let mut args: Vec<String> = Vec::new();
             let style = o["style"].as_str().unwrap();
             if style != "none" {
@@ -483,6 +519,9 @@ fn main() {
             }
             for f in perm {
                 args.push(files[*f].clone());
+            }
+            if dup_arg {
+                args.push(files[0].clone()); // the same file named twice: de-duplicated by the tool
             }
             let hdr = json!({"kind":"sel","set":set,"perm":perm,"argv":args,
                 "opts":{"winc":o["winc"],"lcsc":o["lcsc"],"b":b,"e":e,"lcs":lcs,"eac":eac,"ff":ff,"ffmt":ffmt,"sort":sort,"style":style,"ofile":o["ofile"]}});
